@@ -91,10 +91,22 @@ def run(tier, seed, replay=None):
     nq = 0
     nres = 0
     crashes = []
-    for i in range(ntab):
+    ndir = 32 if tier == "quick" else 400
+    for i in range(ntab + ndir):
         lang = T.LANGS[i % 4]
         L = langs[lang]
-        tab = T.gen_table(rng, L, conforming=True)
+        is_dir = i >= ntab
+        if is_dir:
+            # dependent-bound tables: Foo, Bar : Foo, Box<T>, X<v1 T1, v2 T2 : T1 | Box<T1>> (+ a generic subclass of X)
+            v1, v2 = rng.choice([0, 1, 2]), rng.choice([0, 1, 2])
+            t1 = ("V", 40, v1, None)
+            bnd = t1 if rng.random() < 0.5 else ("A", 3, [t1])
+            tab = {1: ([], []), 2: ([], [("C", 1)]), 3: ([("V", 30, 0, None)], []),
+                   4: ([t1, ("V", 41, v2, bnd)], [("C", 1)] if rng.random() < 0.3 else [])}
+            if rng.random() < 0.4 and bnd is t1:
+                tab[5] = ([("V", 50, 0, None)], [("A", 4, [("V", 50, 0, None), ("V", 50, 0, None)])])
+        else:
+            tab = T.gen_table(rng, L, conforming=True)
         b = T.Builder(L, tab)
         pool = pool_objects(L, b, tab)
         cases = []
@@ -110,8 +122,22 @@ def run(tier, seed, replay=None):
                         for wrap in (("W", 2, a_), a_, ("W", 1, a_)):
                             args_ = [a_ if q[1] == p_[3][1] else (wrap if q is p_ else a_) for q in ps_]
                             directed.append(("A", cid_, args_))
-        for qi in range(12 + len(directed)):
-            t = directed[qi - 12] if qi >= 12 else T.gen_type(rng, L, tab, rng.choice([0, 1, 2]), [])
+                # class Foo<out X, Y : Box<X>>: queries Foo<A, Box<A>>, Foo<A, out Box<A>> with A a type that has subtypes
+                if p_[3] is not None and p_[3][0] == "A" and len(p_[3][2]) == 1 and p_[3][2][0][0] == "V" and \
+                        any(q[1] == p_[3][2][0][1] for q in ps_[:k_]):
+                    base = [("C", c2) for c2 in tab if not tab[c2][0] and any(("C", c2) in tab[c3][1] for c3 in tab)] + \
+                        [t_ for t_ in L.builtin_terms(prims=False) if L.info[t_[1]]["name"] == "NumberType"]
+                    if base:
+                        a_ = rng.choice(base)
+                        boxed = ("A", p_[3][1], [a_])
+                        for wrap in (boxed, ("W", 1, boxed)):
+                            args_ = [a_ if q[1] == p_[3][2][0][1] else (wrap if q is p_ else a_) for q in ps_]
+                            directed.append(("A", cid_, args_))
+        if is_dir:
+            directed = directed * 3         # the searches draw at random: ask each directed query several times
+        nrand = 3 if is_dir else 12
+        for qi in range(nrand + len(directed)):
+            t = directed[qi - nrand] if qi >= nrand else T.gen_type(rng, L, tab, rng.choice([0, 1, 2]), [])
             if t[0] in ("N", "K") or T.nested_nothing(t):
                 continue
             if t[0] == "B" and L.info[t[1]]["bottom"]:
